@@ -6,7 +6,7 @@ CONFIG = {
     "lean_sources": ["OasisModel/Handlers"],
     "extra_theorem_files": [{"file": "OasisProofs/Props/C08Sound.lean", "namespace": "OasisProofs.C08Sound"}],
     "regen": [{"kind": "handlerfacts", "out": "HandlerFacts.lean"}],
-    "generated_obligations": 17,
+    "generated_obligations": 40,
     "drivers": [
         {"name": "ledgerdrv", "needs_model": False,
          "quick": ["-spec", "c08", "-cases", "2000", "-blocks", "14"],
